@@ -141,7 +141,7 @@ def bounded_loops():
     return out
 
 
-def environment(S, cls_name):
+def environment(S, cls_name, symbolic_compat_mode=False):
     from pyvc.values import ListV, mk_bool, NativeFn
     from pyvc.builtins_ import node_rec
     z3 = S.z3
@@ -202,7 +202,7 @@ def environment(S, cls_name):
     phases = {}
     parser = S.abstract("Parser", {"tree": tree, "phases": S.dict(phases), "innerHTML": S.one_of(False, lambda: S.str("innerHTML")),
                                    "framesetOK": S.bool("framesetOK"), "firstStartTag": S.bool("firstStartTag"),
-                                   "compatMode": "no quirks", "originalPhase": None, "scripting": S.bool("scripting"),
+                                   "compatMode": S.one_of("no quirks", "limited quirks", "quirks") if symbolic_compat_mode else "no quirks", "originalPhase": None, "scripting": S.bool("scripting"),
                                    "tokenizer": S.abstract("Tokenizer", {"state": None, "rcdataState": 1, "rawtextState": 2, "plaintextState": 3,
                                                                          "scriptDataState": 4, "dataState": 5,
                                                                          "stream": S.abstract("Stream", {"charEncoding": ("x", "certain")})})})
